@@ -387,6 +387,9 @@ func genSession(g, f *sim.Stream, tier string) (pieces []*replPiece, finalExpr s
 	}
 	// stale cancels of earlier pieces' contexts during later pieces
 	for i := range out {
+		if crossThreads {
+			break
+		}
 		for j := 0; j < i; j++ {
 			if f.Chance(1, 6) {
 				out[i].Stale[j] = f.Intn(120)
@@ -398,7 +401,13 @@ func genSession(g, f *sim.Stream, tier string) (pieces []*replPiece, finalExpr s
 
 // c18Extras weaves statements about host-provided data globals and about
 // imported modules into the generated program (in order, at seeded positions).
+// crossThreads is set by c18Extras when the session has threads that outlive
+// the piece that started them (stale cancels of that piece's context would
+// then, rightly, end them: such sessions get no stale cancels).
+var crossThreads bool
+
 func c18Extras(g *sim.Stream, stmts []Stmt) []Stmt {
+	crossThreads = false
 	var extra []Stmt
 	id := 7000
 	mark := func(expr string) Stmt {
@@ -460,6 +469,19 @@ func c18Extras(g *sim.Stream, stmts []Stmt) []Stmt {
 					extra = append(extra, mark("[rmod.first, rmod.second]"))
 				}
 			}
+		}
+	}
+	if g.Chance(1, 4) {
+		// a thread started by one statement lives on across the pieces: it is
+		// fed through a channel and waited for by later statements
+		crossThreads = true
+		extra = append(extra,
+			Stmt{Src: "cq := chan(1)"},
+			Stmt{Src: "tq := spawn(func() { got := <-cq; return got + 1 })"},
+			Stmt{Src: fmt.Sprintf("cq <- %d", 40+g.Intn(5))},
+			mark("tq.wait()"))
+		if g.Bool() {
+			extra = append(extra, Stmt{Src: "tz := spawn(func(a) { return a * 3 }, 7)"}, mark("tz.wait()"))
 		}
 	}
 	if len(extra) == 0 {
